@@ -127,6 +127,14 @@ class Track:
         if interpolate is not None:
             self.interpolate = interpolate
 
+        #--------------------------------------------------------------------------------
+        # An interpolating track looks one event ahead and is part-way through a ramp
+        # between two events of the stream it has been playing. Forget both, so that
+        # from now on only the new stream is heard.
+        #--------------------------------------------------------------------------------
+        self.next_event = None
+        self.interpolating_event = PSequence([], 0)
+
     def update(self,
                events: Union[dict, Pattern],
                quantize: Optional[float] = None,
